@@ -71,13 +71,20 @@ def abstract_events(events, failure_propagated=True):
     order = []
     open_tx = {}  # rel path -> dict(payload=..., key=..., fn=...)
 
-    def emit(key, op, outcome, ev):
+    def emit(key, op, outcome, ev, slot=None):
         if key not in per_key:
             per_key[key] = []
             order.append(key)
-        per_key[key].append((op, outcome, {"k": ev.get("k"), "thread": ev.get("thread"),
-                                           "worker": bool(ev.get("in_save_file")) and str(ev.get("thread", "")).startswith("ThreadPoolExecutor"),
-                                           "sid": ev.get("sid"), "fault": ev.get("fault")}))
+        entry = [op, outcome, {"k": ev.get("k"), "thread": ev.get("thread"),
+                               "worker": bool(ev.get("in_save_file")) and str(ev.get("thread", "")).startswith("ThreadPoolExecutor"),
+                               "sid": ev.get("sid"), "fault": ev.get("fault"), "inflight": ev.get("inflight")}]
+        if slot is not None:
+            # a write that was open while its directory was renamed: its effect on the directory (the file
+            # exists, with whatever content it ends up with -- the descriptor stays valid across the rename)
+            # belongs *before* the rename
+            slot[:] = entry
+        else:
+            per_key[key].append(entry)
         # an injected OSError in one saver kills the whole processing: the savers of the other data keys are
         # told so (kill_spies / MailboxKilled) -- for their automata that is "processing failed upstream"
         if failure_propagated and str(ev.get("fault") or "").startswith("raise"):
@@ -121,6 +128,11 @@ def abstract_events(events, failure_propagated=True):
                     outcome = ATOMIC_EFF[fault]
             else:
                 outcome = fault_eff or "done"
+            if op == ("rendir",) and outcome in ("done", "full"):
+                for rel_tx, tx in open_tx.items():
+                    if rel_tx.split(os.sep)[0] == parts[0] and "slot" not in tx:
+                        tx["slot"] = [None, None, None]
+                        per_key.setdefault(key, []).append(tx["slot"])
             emit(key, op, outcome, ev)
             continue
         base = parts[-1]
@@ -149,10 +161,10 @@ def abstract_events(events, failure_propagated=True):
 
             if fault or fault_eff:
                 eff = WRITE_EFF[(kind, fault)] if fault else "none"
-                emit(key, mkop(), eff, ev)
+                emit(key, mkop(), eff, ev, slot=tx.get("slot"))
                 del open_tx[rel]
             elif kind == "close":
-                emit(key, mkop(), "done", ev)
+                emit(key, mkop(), "done", ev, slot=tx.get("slot"))
                 del open_tx[rel]
             continue
         if kind == "rename":
@@ -178,7 +190,8 @@ def abstract_events(events, failure_propagated=True):
             op = ("wtmp", fn[1], vid(p["sha"]) if p and "sha" in p else 0)
         else:
             op = ("other", "write %s" % rel)
-        emit(key, op, "trunc", {"k": None, "thread": "?", "sid": None, "inflight": True})
+        emit(key, op, "trunc", {"k": None, "thread": "?", "sid": None, "inflight": True}, slot=tx.get("slot"))
+    per_key = {k: [tuple(e) for e in v if e[0] is not None] for k, v in per_key.items()}
     return per_key, order
 
 
